@@ -406,39 +406,41 @@ where
             finish_by: Instant,
             rm: &Cactus<RepairMerge<StorageT>>,
         ) -> Option<Vec<Vec<Repair<StorageT>>>> {
+            // A repair sequence can be as long as the remaining input (e.g. a long run of lexemes
+            // which can only be deleted), so we walk the chain of parents iteratively: recursion is
+            // only needed for the (rare, and shallowly nested) alternatives of merged nodes.
+            let mut chain = Vec::new();
+            let mut cur = rm.clone();
+            while !matches!(*cur.val().unwrap(), RepairMerge::Terminator) {
+                let parent = cur.parent().unwrap();
+                chain.push(cur);
+                cur = parent;
+            }
+            let mut out: Vec<Vec<Repair<StorageT>>> = Vec::new();
+            for n in chain.iter().rev() {
+                if Instant::now() >= finish_by {
+                    return None;
+                }
+                let (r, alts) = match *n.val().unwrap() {
+                    RepairMerge::Repair(r) => (r, None),
+                    RepairMerge::Merge(r, ref vc) => (r, Some(vc)),
+                    RepairMerge::Terminator => unreachable!(),
+                };
+                if out.is_empty() {
+                    out.push(vec![r]);
+                } else {
+                    for pc in out.iter_mut() {
+                        pc.push(r);
+                    }
+                }
+                if let Some(vc) = alts {
+                    for c in vc.vals() {
+                        out.extend(traverse(finish_by, c)?);
+                    }
+                }
+            }
             if Instant::now() >= finish_by {
                 return None;
-            }
-            let mut out = Vec::new();
-            match *rm.val().unwrap() {
-                RepairMerge::Repair(r) => {
-                    let parents = traverse(finish_by, &rm.parent().unwrap())?;
-                    if parents.is_empty() {
-                        out.push(vec![r]);
-                    } else {
-                        for mut pc in parents {
-                            pc.push(r);
-                            out.push(pc);
-                        }
-                    }
-                }
-                RepairMerge::Merge(r, ref vc) => {
-                    let parents = traverse(finish_by, &rm.parent().unwrap())?;
-                    if parents.is_empty() {
-                        out.push(vec![r]);
-                    } else {
-                        for mut pc in parents {
-                            pc.push(r);
-                            out.push(pc);
-                        }
-                    }
-                    for c in vc.vals() {
-                        for pc in traverse(finish_by, c)? {
-                            out.push(pc);
-                        }
-                    }
-                }
-                RepairMerge::Terminator => (),
             }
             Some(out)
         }
